@@ -1,6 +1,6 @@
 ----------------------------- MODULE PanosTrace -----------------------------
 (* Trace validation for the PAN-OS family (C03, C07, C08, C10, C16).        *)
-EXTENDS Panos, Json, IOUtils, SequencesExt
+EXTENDS Panos, Merge, Json, IOUtils, SequencesExt
 
 VARIABLES l, i0, errl, nchg, foreign
 tvars == <<l, i0, errl, nchg, foreign>>
@@ -72,6 +72,18 @@ ExpRules(rs, a, g, s, sg) == [i \in DOMAIN rs |-> ExpRule(rs[i], a, g, s, sg)]
 Equivalent == ExpRules(rules, addr, grp, svc, sgrp)
               = ExpRules(RulesOf(T), AddrOf(T), GrpOf(T), SvcOf(T), SGrpOf(T))
 
+\* C18: the rulebase the script built on the empty vsys is the effective (merged) target
+IsMerge == "parts" \in DOMAIN T
+ToM(q) == [i \in DOMAIN q |-> [act |-> q[i].action, r |-> q[i]]]
+PartOf(q) == ToM([i \in DOMAIN q |-> RuleOf(q[i])])
+MergeOK == Admissible(ToM(rules), PartOf(T.parts.v4), PartOf(T.parts.v6), PartOf(T.parts.pre), PartOf(T.parts.app))
+MergeWhy == Why(ToM(rules), PartOf(T.parts.v4), PartOf(T.parts.v6), PartOf(T.parts.pre), PartOf(T.parts.app))
+\* known finding: PAN-OS appends <APPEND/> rules behind the whole Netspoc rulebase, i.e. also behind its trailing deny rules
+KF_AppendBehindDeny ==
+  /\ Complete(ToM(rules), {PartOf(T.parts.v4), PartOf(T.parts.v6), PartOf(T.parts.pre), PartOf(T.parts.app)})
+  /\ \A r \in Rng(PartOf(T.parts.pre)), n \in Rng(PartOf(T.parts.v4)) \cup Rng(PartOf(T.parts.v6)) : Pos(ToM(rules), r) < Pos(ToM(rules), n)
+  /\ \A a \in Rng(PartOf(T.parts.app)), n \in Rng(PartOf(T.parts.v4)) \cup Rng(PartOf(T.parts.v6)) : Pos(ToM(rules), n) < Pos(ToM(rules), a)
+
 Post(j) == rules = RulesOf(j) /\ addr = AddrOf(j) /\ grp = GrpOf(j) /\ svc = SvcOf(j) /\ sgrp = SGrpOf(j)
 Chk(ok, tag, detail, kf) == ok \/ PrintT(<<"VERR", LastEv.t, l, tag, detail, kf>>)
 
@@ -89,7 +101,9 @@ Mon ==
   /\ Chk(~(err # "" /\ errl = l), "C08", err, KFKey)
   /\ Chk(foreign = "" \/ LastEv.ev = "Init", "C07", "command addresses a vsys outside the target: " \o foreign, "")
   /\ Chk(LastEv.ev \in {"Resume", "Done"} => Post(LastEv.post), "HARNESS", "post state of replica differs", "")
-  /\ Chk(LastEv.ev = "Done" => Equivalent, "EQUIV", IF nchg = 0 THEN "unchanged" ELSE "final", KFKey)
+  /\ Chk(LastEv.ev = "Done" /\ IsMerge => MergeOK, "C18", IF IsMerge THEN MergeWhy ELSE "",
+         IF IsMerge /\ KF_AppendBehindDeny THEN "PanosAppendBehindDeny" ELSE "")
+  /\ Chk(LastEv.ev = "Done" /\ ~IsMerge => Equivalent, "EQUIV", IF nchg = 0 THEN "unchanged" ELSE "final", KFKey)
   /\ Chk(LastEv.ev = "Done" => LastEv.n2 = 0, "FIXPOINT", "second compare reports changes", KFKey)
 Accepted == TLCGet("stats").diameter = Len(Trace)
 =============================================================================
